@@ -548,10 +548,10 @@ def onReply (q : Quirks) (c : Cfg) (corr : Nat) (v : Vol) : Option (List Act × 
   | none => none
 
 /-- does the engine have attempts of execution `owner` on record (its branch metadata, made when the first event of a branch is
-delivered or the first result arrives — not when a fan-out state launches its branches) -/
-def hasRecords (c : Cfg) (v : Vol) (owner : Option Nat) : Bool :=
+delivered or the first result arrives — not when a fan-out state launches its branches), leaving event `except` aside -/
+def hasRecords (c : Cfg) (v : Vol) (owner : Option Nat) (except : Nat) : Bool :=
   v.joins.any (fun j => !j.filled.isEmpty || j.dead || j.ended) ||
-    c.evq.any (fun m => m.unacked && evOwner m.kind == owner && !(evJids m.kind).isEmpty)
+    c.evq.any (fun m => m.unacked && m.id != except && evOwner m.kind == owner && !(evJids m.kind).isEmpty)
 
 /-- The event is dropped (`branch_has_terminated`): it belongs to a fan-out attempt that is over, or — an event delivered for
 the first time, at the top level or when the engine has no attempt of the execution on record — to an execution whose record
@@ -560,7 +560,7 @@ def inDeadJoin (q : Quirks) (c : Cfg) (v : Vol) (m : QEv) : Bool :=
   (evJids m.kind).any (deadJid q c v) ||
     ((evOwner m.kind).isNone &&
       ((!(evJids m.kind).isEmpty && v.joins.any (·.ended)) ||
-       (c.notes > 0 && !m.redelivered && ((evJids m.kind).isEmpty || !hasRecords c v none)) ||
+       (c.notes > 0 && !m.redelivered && ((evJids m.kind).isEmpty || !hasRecords c v none m.id)) ||
        (c.failed > 0 && !q.attemptFailureForgotten)))
 
 /-- … it is acknowledged; when the engine has the attempt on record the attempt is now over as well, and is tidied up -/
